@@ -124,7 +124,7 @@ PLAN = {
     "C07": {"mc": {"quick": ["ttl2"], "thorough": ["ttl3", "ref5"]},
             "sim": [("sim_ttl", 400, 8000, 60), ("sim_ref", 300, 6000, 70), ("sim_refuse_ttl", 250, 3000, 60)]},
     "C08": {"mc": {"quick": ["handoff3"], "thorough": ["handoff4", "handoff5_view"]}, "live": {"quick": ["handoff3"], "thorough": ["handoff3", "live4"]},
-            "sim": [("sim_handoff", 400, 6000, 60), ("sim_close", 200, 3000, 60)], "free": (2, 30), "race": True, "ring": True},
+            "sim": [("sim_handoff", 400, 6000, 60), ("sim_close", 200, 3000, 60)], "free": (2, 10), "race": True, "ring": True},
     "C09": {"mc": {"quick": ["cost4"], "thorough": ["cost5"]},
             "sim": [("sim_cost", 800, 12000, 70)]},
     "C13": {"mc": {"quick": ["write3", "ttl2"], "thorough": ["write4", "ttl3", "handoff4", "write5_view"]},
